@@ -42,7 +42,9 @@ func c14Spec(cs []tcue, d int64, filler bool) (out []tcue, addedFiller bool) {
 	return
 }
 
-func c14Check(cs []tcue, d int64, filler bool) string {
+func c14Check(cs []tcue, d int64, filler bool) string { return c14Check2(cs, d, filler, 0) }
+
+func c14Check2(cs []tcue, d int64, filler bool, d2 int64) string {
 	sub := astisub.NewSubtitles()
 	snaps := make([]string, len(cs))
 	for k, c := range cs {
@@ -85,6 +87,31 @@ func c14Check(cs []tcue, d int64, filler bool) string {
 	}
 	if filler && int64(sub.Duration()) != d {
 		return fmt.Sprintf("%s: the list lasts %d afterwards, not %d", desc, sub.Duration(), d)
+	}
+	// a second call, on the result of the first (which may now end with a filler cue), to a later target
+	if d2 > d {
+		before := cuesOf(sub.Items)
+		ptrs2 := append([]*astisub.Item(nil), sub.Items...)
+		if p := guard(func() { sub.ForceDuration(time.Duration(d2), filler) }); p != "" {
+			return p
+		}
+		exp2, added2 := c14Spec(before, d2, filler)
+		got2 := cuesOf(sub.Items)
+		if len(got2) != len(exp2) {
+			return fmt.Sprintf("%s then ForceDuration(%d): got %s, specification %s", desc, d2, fmtCues(got2), fmtCues(exp2))
+		}
+		n2 := len(exp2)
+		if added2 {
+			n2--
+			if f := sub.Items[n2]; int64(f.StartAt) != d2-ms || int64(f.EndAt) != d2 {
+				return fmt.Sprintf("%s then ForceDuration(%d): filler is [%d,%d)", desc, d2, f.StartAt, f.EndAt)
+			}
+		}
+		for k := 0; k < n2; k++ {
+			if it := sub.Items[k]; it != ptrs2[k] || int64(it.StartAt) != exp2[k].S || int64(it.EndAt) != exp2[k].E {
+				return fmt.Sprintf("%s then ForceDuration(%d): got %s, specification %s (cue %d must be left as it was)", desc, d2, fmtCues(got2), fmtCues(exp2), k)
+			}
+		}
 	}
 	return ""
 }
@@ -403,7 +430,7 @@ func init() {
 				cs := lists[c.Idx]
 				for d := ms; d <= 8*ms; d += ms {
 					for _, f := range []bool{false, true} {
-						if msg := c14Check(cs, d, f); msg != "" {
+						if msg := c14Check2(cs, d, f, d+ms+(d%(2*ms))); msg != "" {
 							return fw.Bad(hashCues(cs), nil, "%s", msg)
 						}
 					}
@@ -413,12 +440,13 @@ func init() {
 				return fw.OK(hashCues(cs), map[string]interface{}{"cues_ns": fmtCues(cs), "d": "1..8ms", "filler": "both"})
 			}
 			cs, d := c14Random(c.R)
+			d2 := d + (1+c.R.I64n(4000))*fw.Pick(c.R, []int64{1, ms})
 			for _, f := range []bool{false, true} {
-				if msg := c14Check(cs, d, f); msg != "" {
+				if msg := c14Check2(cs, d, f, d2); msg != "" {
 					return fw.Bad(hashCues(cs, uint64(d)), nil, "%s", msg)
 				}
 			}
-			c.Count("random_forcings_checked", 2)
+			c.Count("random_forcings_checked", 4)
 			c.Feature(fmt.Sprintf("random len=%d", len(cs)/5*5))
 			return fw.OK(hashCues(cs, uint64(d)), nil)
 		},
